@@ -40,6 +40,17 @@ def handle (op : String) (a r : Json) : Except String Reply := do
     pure { m := m, prop := some holds,
            why := if holds then "" else "closing unrelated sockets while a notice was being fanned out wedged the node's notice delivery",
            sig := if holds then "" else "C16/churn/notice-delivery-wedged" }
+  | "localdial" =>
+    -- the model: a packet from this node to an unbound, non-reserved service of this node
+    let me : Node := [109, 101]
+    let cfg : NodeCfg := { route := fun _ => none, conn := fun _ => false, listener := fun _ => false, fw := fun _ _ _ _ => .accept, maxHops := 30 }
+    let p : Packet := { fromNode := me, fromSvc := [101, 112, 104], toNode := me, toSvc := [110, 111, 115, 117, 99, 104, 115, 118], ttl := 30, body := .raw [0] }
+    let syncErr := Receptor.Forward.handle stdHops me cfg p == Outcome.err .serviceUnknown
+    let m := jObj [("failed", Json.bool syncErr), ("fast", Json.bool syncErr), ("unknown", Json.bool syncErr)]
+    let holds := r == m
+    pure { m := m, prop := some holds,
+           why := if holds then "" else "a stream dial to a service of this very node that nobody listens on did not fail at once with 'service unknown' (the error returned by the send was lost; the dial waited for a time-out)",
+           sig := if holds then "" else "C16/localdial/not-failed-at-once" }
   | _ => throw s!"bad-op unreach {op}"
 
 end Receptor.Drive.Unreach
